@@ -234,3 +234,44 @@ def parse_netpbm(out):
     if not m:
         return None
     return m.group(1).decode(), int(m.group(2)), int(m.group(3)), out[m.end():]
+
+
+def ref_vef(data):
+    """(width, height of the PNG, palette indices row by row, number of source lines) or None.  Types: byte 1 = 0 -> 320x200x16,
+    1 -> 640x200x4 (stretched to 640x400 by line doubling), 3 -> 320x200x4; byte 0 = 128 -> 400 squashed records."""
+    if len(data) < 18 or data[1] not in (0, 1, 3):
+        return None
+    w, colors, rec = {0: (320, 16, 80), 1: (640, 4, 80), 3: (320, 4, 40)}[data[1]]
+    pal = list(data[2:18])
+    if any(p >= 64 for p in pal):
+        return None
+    if data[0] == 128:
+        body = bytearray()
+        pos = 18
+        for _ in range(400):
+            if pos >= len(data):
+                return None
+            cnt = data[pos]
+            recd = data[pos + 1:pos + 1 + cnt]
+            if len(recd) != cnt:
+                return None
+            r = ref_unsquash(recd, cnt, rec)
+            if r is None or len(r) != rec:
+                return None
+            body += r
+            pos += 1 + cnt
+    else:
+        body = data[18:]
+    px = []
+    for b in body:
+        if colors == 16:
+            px += [pal[b >> 4], pal[b & 15]]
+        else:
+            px += [pal[b >> 6], pal[(b >> 4) & 3], pal[(b >> 2) & 3], pal[b & 3]]
+    if len(px) != w * 200:
+        return None
+    if w == 640:
+        rows = [px[i * 640:(i + 1) * 640] for i in range(200)]
+        px = [v for r in rows for v in (r + r)]
+        return 640, 400, px, 200
+    return 320, 200, px, 200
